@@ -13,6 +13,7 @@ import IocProofs.Lemmas.ScanValue
 import IocProofs.Lemmas.SemScanFields
 import IocProofs.Lemmas.ScanCode
 import IocProofs.Lemmas.TagScanLink
+import IocProofs.Lemmas.SemSmall
 namespace Ioc.C11
 open Ioc Ioc.Scan
 
@@ -378,5 +379,15 @@ theorem C11_extract_is_code (f : ScannedField) :
   ⟨valueExtract_is_code f, markerExtract_is_code f⟩
 
 end code
+
+/-- NewHolder / NewEmbedHolder, regenerated: the holder of a definition has the definition's own Base, is not embedded and has
+    no outer holder; the holder of an embedded struct has that struct's Base, the OUTER holder's definition (so every field
+    found below belongs to the component's one definition), is embedded, and points to the outer holder -/
+theorem C11_code_holders (m : Nat) (b hb hm he hh : Go.Val) :
+    Go.run Sem.hoPrims Progs.holder_NewHolder [.ref m 1] () =
+      some (.tuple [.str "Holder", .ref m 130, .ref m 1, .bool false, .nil], ()) ∧
+    Go.run Sem.hoPrims Progs.holder_NewEmbedHolder [b, .tuple [.str "Holder", hb, hm, he, hh]] () =
+      some (.tuple [.str "Holder", b, hm, .bool true, .tuple [.str "Holder", hb, hm, he, hh]], ()) :=
+  ⟨Sem.newHolder_sem m, Sem.newEmbedHolder_sem b hb hm he hh⟩
 
 end Ioc.C11
